@@ -83,3 +83,56 @@ Definition unique_spec (cells u : list val) : Prop :=
   NoDup (keys u) /\ forall k, In k (keys u) <-> In k (keys cells).
 Definition unique_ok (cells u : list val) : bool :=
   knodup (keys u) && forallb (fun k => kmem k (keys cells)) (keys u) && forallb (fun k => kmem k (keys u)) (keys cells).
+
+(* ---- cells of any stored type ---------------------------------------------------------------------------
+   A column's own type check stores int / float / str / None only (val).  A MixedColumn can also hold what was
+   stored WITHOUT that check: the result columns of `col @ f` / map_ (BaseColumn._map) and of column arithmetic
+   (BaseColumn._operate), slices and selections of those, and a table column wherever such a derived column is
+   inserted by reference or copied by `<<`.  The property speaks of
+   "the column's numeric non-NaN cells": a cell is numeric when it is a real number of Python's numeric tower --
+   int and its subclass bool (True is the number 1, False the number 0), float, NumPy integer and floating
+   scalars, fractions.Fraction and finite decimal.Decimal (exact rationals).  Its value is its exact value. *)
+Inductive xcell :=
+  | XV (v : val)
+  | XBool (b : bool)
+  | XNpInt (z : Z)
+  | XNpFlt (is64 : bool) (f : fl)       (* numpy.float64 subclasses float, the narrower ones do not *)
+  | XRat (q : Qc).                      (* Fraction / Decimal *)
+Definition qbool (b : bool) : Qc := qz (if b then 1 else 0).
+Definition xcell_q (c : xcell) : option Qc :=
+  match c with
+  | XV v => cell_q v
+  | XBool b => Some (qbool b)
+  | XNpInt z => Some (qz z)
+  | XNpFlt _ f => fl_q f
+  | XRat q => Some q
+  end.
+Fixpoint xnums (cells : list xcell) : list Qc :=
+  match cells with
+  | [] => []
+  | c :: r => match xcell_q c with Some q => q :: xnums r | None => xnums r end
+  end.
+Definition xcell_inf (c : xcell) : bool :=
+  match c with XV v => cell_inf v | XNpFlt _ (FInf _) => true | _ => false end.
+Definition xin_scope (cells : list xcell) : bool := negb (existsb xcell_inf cells).
+Definition xcol_stat (s : stat) (cells : list xcell) : option Qc := textbook s (xnums cells).
+
+(* Python equality (and hash) of numbers is equality of their values: True == 1 == 1.0 == Fraction(1) == np.int64(1) *)
+Definition xcell_key (c : xcell) : option key :=
+  match c with
+  | XV v => cell_key v
+  | XBool b => Some (KNum (qbool b))
+  | XNpInt z => Some (KNum (qz z))
+  | XNpFlt _ f => cell_key (VFlt f)
+  | XRat q => Some (KNum q)
+  end.
+Fixpoint xkeys (cells : list xcell) : list key :=
+  match cells with
+  | [] => []
+  | c :: r => match xcell_key c with Some k => k :: xkeys r | None => xkeys r end
+  end.
+Definition xdistinct (cells : list xcell) : list key := kdistinct (xkeys cells).
+Definition xunique_spec (cells u : list xcell) : Prop :=
+  NoDup (xkeys u) /\ forall k, In k (xkeys u) <-> In k (xkeys cells).
+Definition xunique_ok (cells u : list xcell) : bool :=
+  knodup (xkeys u) && forallb (fun k => kmem k (xkeys cells)) (xkeys u) && forallb (fun k => kmem k (xkeys u)) (xkeys cells).
